@@ -91,7 +91,8 @@ def rule_r1(p, res):
         if deco == "imgfeature":
             r.check(firsts == [img, img], f, w, "imgfeature must hand an Image to the feature on both paths")
             arr_branch = tests[0].body if not norm(tests[0].test).startswith("not") else tests[0].orelse
-            s = " ".join(norm(x) for x in arr_branch)
+            from ..astutil import norm_block
+            s = norm_block(arr_branch, " ")
             r.check("%s = Image(%s, copy=False)" % (img, img) in s and ".pixels" in s, f, w, "on the array path imgfeature must wrap the array in an Image and return the result's pixels")
         else:
             r.check(firsts == sorted([img, img + ".pixels"]), f, w, "%s must hand image.pixels (image path) or the array itself (array path) to the feature" % deco)
